@@ -14,8 +14,9 @@ import (
 
 func init() {
 	register(&Scenario{
-		Prop: "C27",
-		Run:  runC27,
+		Prop:      "C27",
+		Run:       runC27,
+		NeedsRace: true,
 		Real: []string{
 			"osm.NewWriter / WriteNode / WriteWay / WriteRelation / Flush (dense nodes, delta coding, string tables, zlib, protobuf)",
 			"osm.ReadPBFWithOptions with Cores 1-8: the blob reader goroutine, the decoder goroutines, their channel, select and WaitGroup, all under the simulated scheduler",
